@@ -26,7 +26,7 @@ cur=None
 for line in open("enginetest/contracts_verif.go"):
     m=re.match(r"//@ func (\S+)",line)
     if m: cur=m.group(1)
-    m=re.match(r"//@\s+(ensures|loop \d+ invariant)\S*\s+(bad-[A-Za-z0-9-]+):",line)
+    m=re.match(r"//@\s+(ensures|loop \d+ invariant|maintains|assert-before \S+|requires)\S*\s+(bad-[A-Za-z0-9-]+):",line)
     if m: labels.add((cur,m.group(2)))
 notfailed=[(f,l) for (f,l) in sorted(labels) if not any(("clover."+f+"#") in u and l in u for u in und)]
 total=cov["obligations"]
